@@ -453,6 +453,13 @@ def run_tyrving(mon, ctx, job, rnd):
             if n >= 6000:
                 m, r = divmod(n, 6000)
                 attach.call(f, g, age, ev, '%d:%02d.%d' % (m, r // 100, (r % 100) // 10))
+            # a number and an electronic text straight after the hand-timed texts (whatever a hand-timed call sets must not
+            # be there for the next, differently typed mark of the same table)
+            attach.call(f, g, age, ev, n / 100)
+            attach.call(f, g, age, ev, (n - 1) / 100)
+            if n % 100 == 0:
+                attach.call(f, g, age, ev, n // 100)
+            attach.call(f, g, age, ev, '%d.%02d' % (n // 100, n % 100))
     # spellings of the key
     attach.call(f, g.lower(), str(age), ev.lower() if mon.u.check_event_code(ev.lower()) else ev, bn / 100)
     some = sorted(marks)[:: max(1, len(marks) // 12)]
